@@ -77,6 +77,10 @@ func qualName(n *types.Named) string {
 }
 
 func (u *Universe) isRepo(n *types.Named) bool {
+	if n.Obj().Pkg() != nil && n.Obj().Pkg().Path() == "reflect" && n.Obj().Name() == "StructField" {
+		// a plain record (no hidden state): modelled as a struct value like the repository's own
+		return true
+	}
 	return n.Obj().Pkg() != nil && strings.HasPrefix(n.Obj().Pkg().Path(), u.repoPrefix)
 }
 
